@@ -890,6 +890,9 @@ class Interp:
                     self.facts_nonzero.append((a - b))
                 elif op == "between":  # lo < x < hi with lo<0<hi excluded
                     self.facts_nonzero.append(a)
+                elif op in _NEGOP and isinstance(a, E) and isinstance(b, E):
+                    self.learn(Guard("cmp", _NEGOP[op], a, b))
+                    return
             elif h.kind == "all" and h.args[0] == "eqzero":
                 self.facts.append(("notallzero", h.args[1]))
             elif h.kind == "and":
@@ -1623,6 +1626,7 @@ class Interp:
 
 
 _PENDING = object()
+_NEGOP = {"Lt": "GtE", "LtE": "Gt", "Gt": "LtE", "GtE": "Lt", "NotEq": "Eq"}
 
 
 def _dotted(n):
